@@ -70,6 +70,7 @@ MORE_PROPS = {"theories/props/C15.v": ["theories/props/C15_state.v", "theories/p
               "theories/props/C02.v": ["theories/props/C14_roundtrip.v", "theories/props/C02_roundtrip.v"],
               "theories/props/C03.v": ["theories/props/C14_roundtrip.v", "theories/props/C03_shapes.v", "theories/props/C02_roundtrip.v"],
               "theories/props/C01.v": ["theories/props/C01_depth.v"],
+              "theories/props/C13.v": ["theories/props/C13_trailing.v"],
               "theories/props/C16.v": ["theories/props/C16_errors.v", "theories/props/C16_tokens.v"]}
 
 
@@ -843,7 +844,7 @@ check_c06 = parser_check(
     "input the scanner's token dump (hook) is compared with the leaves of the returned tree (same text, same offset, each once, in order), "
     "the bracket tokens must nest and the first token must be `package`; non-trivial = accepted inputs",
     lambda run: fam_valid_mut_soup(200, 6, 1500, styles=("random", "dense"))(run) + pfam.text_mutants() + order_cases() +
-    [pfam.Case(c.src, "F-params") for c in pfam.param_cases()], nontrivial=accepted)
+    [pfam.Case(c.src, "F-params") for c in pfam.param_cases()] + pfam.bom_cases(), nontrivial=accepted)
 
 check_c11 = parser_check(
     "C11", "theories/props/C11.v", "comments", oracle_comments,
@@ -851,7 +852,7 @@ check_c11 = parser_check(
     "generated valid programs rendered with comments in random gaps (style comments: line and general comments, multi-byte, "
     "inside type-parameter lists, interface and struct bodies, at line ends) and accepted mutants; the comment tokens of the hook's "
     "token dump must equal File.comments (offset and text); non-trivial = accepted inputs containing at least one comment",
-    lambda run: fam_valid_mut_soup(300, 1, 0, styles=("comments", "comments", "random"))(run) + pfam.comment_injection_cases() + pfam.line_end_comment_cases(),
+    lambda run: fam_valid_mut_soup(300, 1, 0, styles=("comments", "comments", "random"))(run) + pfam.comment_injection_cases() + pfam.line_end_comment_cases() + pfam.bom_cases(),
     nontrivial=lambda c, l: l.startswith("OK ") and ("/*" in c.src or "//" in c.src))
 
 
@@ -1008,6 +1009,8 @@ def site_corpus_cases():
         out.append(pfam.Case(src, "F-err-site", note=site))
         if src.startswith("package p; "):
             out.append(pfam.Case("package p\n\n// é日本\nvar s = `é\n日` /* c\n */\n" + src[len("package p; "):], "F-err-site", note=site))
+            for t in pfam.multiline_token_then(src[len("package p; "):]):
+                out.append(pfam.Case(t, "F-err-site-multiline", note=site))
         # the same input continued past the failing token: what the code after the guard does when the guard is
         # what keeps an unreachable!/unwrap/index from being reached (e.g. s[:a:b: + c])
         for suf in SITE_CONTINUATIONS:
@@ -1040,7 +1043,7 @@ def long_token_cases():
 def fam_err(run):
     progs, hit, labels = pfam.gen_programs(seed_of(run), budget(run, 150, 1200))
     return pfam.damaged_cases(progs) + pfam.soup_cases(seed_of(run), budget(run, 500, 5000)) + site_corpus_cases() + \
-        [c for c in pfam.text_mutants()] + long_token_cases()
+        [c for c in pfam.text_mutants()] + long_token_cases() + pfam.bom_cases()
 
 
 check_c16 = parser_check(
